@@ -104,7 +104,7 @@ inductive Refusal where
   | tooFewSamples               -- nearest-neighbour stage (KDTree k=2) with fewer than 2 cells
   | emptyFactor                 -- a factor without columns (Ridge refuses 0 features; unreachable since negative ranks are refused)
   | noInputUncertainty          -- _sigma_to_y_cov_factor(None, None, ·)
-  | sigmaShape                  -- function estimator: negative / more than 1-D sigma
+  | sigmaShape                  -- function estimator: negative / more than 1-D sigma, a vector whose length is not n
   deriving Repr, DecidableEq
 
 inductive PredFamily where
@@ -225,7 +225,9 @@ def validateRankParams (gp : GPType) (n : Nat) (rank : RankV) (nl : Nat) : Excep
 /-- `validate_params(rank, gp_type, n_samples, n_landmarks, landmarks)` for already typed arguments. -/
 def validateParams (rank : RankV) (gp : GPType) (n nl : Nat) (landmarks : Option Nat) :
     Except Refusal Unit := do
-  validateLandmarkParams nl landmarks
+  -- `fixed` with more requested landmarks than cells falls back to the cells as landmarks (`compute_landmarks`), which leaves
+  -- `n` landmark rows next to `n_landmarks > n`: the state of every fitted model of that kind, accepted on re-validation
+  if gp = .fixed ∧ landmarks = some n ∧ n < nl then pure () else validateLandmarkParams nl landmarks
   validateGpType gp n nl
   validateRankParams gp n rank nl
 
@@ -316,12 +318,19 @@ inductive SigmaForm where
   | scalar            -- a non-negative float
   | negative          -- refused by the constructor
   | vecN              -- one value per cell
+  | vecL (k : Nat)    -- a vector of `k` entries (`k = n`: the same as `vecN`; otherwise contradicts the number of cells)
   | matN (k : Nat)    -- (n, k) array
   deriving Repr, DecidableEq
 
 def SigmaForm.isMat : SigmaForm → Bool
   | .matN _ => true
   | _ => false
+
+/-- A one-dimensional `sigma` whose length is not the number of cells (refused when the predictor is built:
+    `_sigma_to_y_cov_factor` / `_LandmarksConditional`). -/
+def SigmaForm.wrongLength : SigmaForm → Nat → Bool
+  | .vecL k, n => k ≠ n
+  | _, _ => false
 
 structure Config where
   est : Est
@@ -440,7 +449,8 @@ def resolveFunction (c : Config) : Outcome :=
       if c.n < 2 then .refused .tooFewSamples else
       match landmarksStep c.landmarks r.gp c.n r.nl with
       | .error e => .refused e
-      | .ok lm => functionPredictor r.gp c.n lm c.sigma
+      | .ok lm =>
+        if c.sigma.wrongLength c.n then .refused .sigmaShape else functionPredictor r.gp c.n lm c.sigma
 
 /-- The configuration whose triple `prepare` resolves: the function estimator's rank is the
     constructor's `1.0`. -/
